@@ -21,6 +21,7 @@ func run(c *Ctx) {
 	}
 	ml.RunFlvScripts(c, "c01", fl)
 	wireRuns(c)
+	ml.FlvWireRuns(c)
 	for _, hevc := range []bool{false, true} {
 		ml.RecordOutcome(c, ml.ScJoinRace(false, hevc), "c01")
 		ml.RecordOutcome(c, ml.ScJoinRace(true, hevc), "c01")
